@@ -79,6 +79,8 @@ pub trait Sc: cgmath::BaseFloat + Debug + 'static {
     fn t_le(a: &Self, b: &Self) -> Tri;
     fn t_lt(a: &Self, b: &Self) -> Tri;
     fn show(&self) -> String;
+    /// is the value an integer?
+    fn is_int(&self) -> Tri;
     /// widen by k ulps (identity for exact engines)
     fn widen(self, _k: u32) -> Self {
         self
@@ -130,6 +132,9 @@ impl Sc for Q {
     fn show(&self) -> String {
         format!("{:?}", self)
     }
+    fn is_int(&self) -> Tri {
+        if self.is_integer() { Tri::True } else { Tri::False }
+    }
 }
 
 impl Sc for Iv {
@@ -172,6 +177,13 @@ impl Sc for Iv {
     fn widen(self, k: u32) -> Iv {
         Iv::widen(self, k)
     }
+    fn is_int(&self) -> Tri {
+        if self.is_point() {
+            return if self.lo.fract() == 0.0 { Tri::True } else { Tri::False };
+        }
+        // does [lo, hi] contain an integer?
+        if self.lo.ceil() <= self.hi { Tri::Unknown } else { Tri::False }
+    }
 }
 
 impl Sc for f64 {
@@ -188,14 +200,19 @@ impl Sc for f64 {
     fn enc(&self) -> (f64, f64) {
         (*self, *self)
     }
-    fn t_eq(_: &f64, _: &f64) -> Tri {
-        Tri::Unknown
+    // real comparisons so that bodies can branch on the native run; the
+    // oracles themselves never judge the native engine (see Ck)
+    fn t_eq(a: &f64, b: &f64) -> Tri {
+        if a == b { Tri::True } else { Tri::False }
     }
-    fn t_le(_: &f64, _: &f64) -> Tri {
-        Tri::Unknown
+    fn t_le(a: &f64, b: &f64) -> Tri {
+        if a <= b { Tri::True } else { Tri::False }
     }
-    fn t_lt(_: &f64, _: &f64) -> Tri {
-        Tri::Unknown
+    fn t_lt(a: &f64, b: &f64) -> Tri {
+        if a < b { Tri::True } else { Tri::False }
+    }
+    fn is_int(&self) -> Tri {
+        if self.fract() == 0.0 { Tri::True } else { Tri::False }
     }
     fn show(&self) -> String {
         format!("{:?}", self)
@@ -249,9 +266,8 @@ impl<S: Sc> Ck<S> {
     pub fn eq(&mut self, what: &str, code: S, spec: S) {
         self.checks += 1;
         self.trace.push(code.enc());
-        if S::ENGINE == Engine::Iv {
-            let (lo, hi) = code.enc();
-            crate::iv::note_width(hi - lo);
+        if S::ENGINE == Engine::Native {
+            return;
         }
         if S::t_eq(&code, &spec) == Tri::False {
             self.violated(format!("{what}: code={} spec={}", code.show(), spec.show()));
@@ -283,7 +299,7 @@ impl<S: Sc> Ck<S> {
     pub fn le(&mut self, what: &str, a: S, b: S) {
         self.checks += 1;
         self.trace.push(a.enc());
-        if S::t_le(&a, &b) == Tri::False {
+        if S::ENGINE != Engine::Native && S::t_le(&a, &b) == Tri::False {
             self.violated(format!("{what}: {} <= {} is false", a.show(), b.show()));
         }
     }
@@ -291,7 +307,7 @@ impl<S: Sc> Ck<S> {
     pub fn lt(&mut self, what: &str, a: S, b: S) {
         self.checks += 1;
         self.trace.push(a.enc());
-        if S::t_lt(&a, &b) == Tri::False {
+        if S::ENGINE != Engine::Native && S::t_lt(&a, &b) == Tri::False {
             self.violated(format!("{what}: {} < {} is false", a.show(), b.show()));
         }
     }
@@ -308,10 +324,37 @@ impl<S: Sc> Ck<S> {
             self.violated(format!("{what}: expected true"));
         }
     }
+    /// a fact judged on every engine, the native one included
+    pub fn always(&mut self, what: &str, b: bool) {
+        self.checks += 1;
+        if !b {
+            self.violated(format!("{what}: expected true"));
+        }
+    }
+    /// `got` must be `q` or `-q` (component-wise, one common sign)
+    pub fn eq_pm<const N: usize>(&mut self, what: &str, got: [S; N], q: [S; N]) {
+        let mut plus = true;
+        let mut minus = true;
+        for i in 0..N {
+            self.trace.push(got[i].enc());
+            if S::t_eq(&got[i], &q[i]) == Tri::False {
+                plus = false;
+            }
+            if S::t_eq(&got[i], &(-q[i])) == Tri::False {
+                minus = false;
+            }
+        }
+        self.checks += 1;
+        if S::ENGINE != Engine::Native && !(plus || minus) {
+            let g: Vec<String> = got.iter().map(|x| x.show()).collect();
+            let e: Vec<String> = q.iter().map(|x| x.show()).collect();
+            self.violated(format!("{what}: got {g:?}, expected +-{e:?}"));
+        }
+    }
     /// a != b must hold (violated only if certainly equal)
     pub fn ne(&mut self, what: &str, a: S, b: S) {
         self.checks += 1;
-        if S::t_eq(&a, &b) == Tri::True {
+        if S::ENGINE != Engine::Native && S::t_eq(&a, &b) == Tri::True {
             self.violated(format!("{what}: {} != {} is false", a.show(), b.show()));
         }
     }
